@@ -97,6 +97,8 @@ def build_rows(case):
         del R[1][lab]
     if "nolabel_repeat" in T:
         del R[4][lab]
+    if "fl_multi" in T:
+        R[1]["appearance"] = "w2 field-list" if len(T) % 2 else "field-list no-collapse"
     if "no_maxpix" in T:
         # no max-pixels: either no parameters at all, or another parameter only
         if len(T) % 2:
